@@ -25,6 +25,8 @@ func runC18(c *Ctx) {
 	c18HashKind(c)
 	c18Fees(c)
 	c18Missing(c, ge)
+	// the multiproof encoder strips proofs from DeepCopy results: every copied element must own its memory
+	c09PerIterationFresh(c, ge)
 }
 
 func directCalls(ge *GuardEngine, entry string) ([]CallFact, *ssa.Function) {
